@@ -99,8 +99,9 @@ def replay_vc(prop, vc, unit, driver):
                         variants.append({k: enc(x) for k, x in v.items()})
                 except Exception as e:      # noqa
                     rec["repair_error"] = repr(e)
+            extra = {k: x for k, x in w.items() if k not in argnames}
             tasks = [{"op": "clause", "sidecar": c.sidecar, "key": c.key, "clause": clause, "argnames": argnames,
-                      "args": [v[n] for n in argnames]} for v in variants]
+                      "args": [v[n] for n in argnames], "extra": extra} for v in variants]
             rec["kind"] = "clause"
             rec["tasks"] = tasks
             try:
